@@ -66,4 +66,16 @@ bool ops_misc(Ctx& c, const json& s, int idx, bool& handled) {
 			json strs = json::array(); for (auto& x : t) { std::vector<int> c; for (unsigned char ch : x) c.push_back(ch); strs.push_back(c); }
 			logev({{"e", "Cmp3"}, {"s", strs}, {"less", less}, {"eq", eq}}); }
 		return true; }
+	// ---- C14 (c) / C20: size-prefixed container writes and reads -----------------------------------------------------
+	if (op == "prefixed_write") { const std::string T = s["prefix"]; std::size_t n = s["count"]; const bool wantOk = s["expect"] == "ok";
+		std::vector<unsigned char> v(n); for (std::size_t j = 0; j < n; ++j) v[j] = Scen::blob_byte(7, j);
+		Stream::DynamicMemoryWriter w; const unsigned char pre[3] = {0xAA, 0xBB, 0xCC}; w.Write(pre, 3);        // something already written must survive a refusal
+		bool refused = throws([&] { if (T == "u8") w.Write<uint8_t>(v); else if (T == "i8") w.Write<int8_t>(v); else if (T == "u16") w.Write<uint16_t>(v); else if (T == "i16") w.Write<int16_t>(v); else if (T == "u32") w.Write<uint32_t>(v); else w.Write<int32_t>(v); });
+		if (refused == wantOk) { Proto::mismatch(site + "/" + T, refused ? "refused-should-accept" : "accepted-should-refuse", where("count " + std::to_string(n))); return false; }
+		auto got = dyn_bytes(w); std::vector<unsigned char> want(pre, pre + 3); if (wantOk) { auto e = Scen::expand(s["segs"]); want.insert(want.end(), e.begin(), e.end()); }
+		if (got != want) { Proto::mismatch(site + "/" + T, wantOk ? "bytes" : "state-after-failure", where("count " + std::to_string(n) + " " + Scen::hexdiff(got, want))); return false; }
+		if (wantOk) { Stream::MemoryReader r(got.data(), got.size()); r.SeekForward(3); std::vector<unsigned char> back{1, 2, 3};        // typed read is the inverse of the typed write
+			bool rr = throws([&] { if (T == "u8") r.Read<uint8_t>(back); else if (T == "i8") r.Read<int8_t>(back); else if (T == "u16") r.Read<uint16_t>(back); else if (T == "i16") r.Read<int16_t>(back); else if (T == "u32") r.Read<uint32_t>(back); else r.Read<int32_t>(back); });
+			if (rr || back != v || r.Position() != got.size()) { Proto::mismatch(site + "/" + T, "read-back", where("count " + std::to_string(n))); return false; } }
+		return true; }
 	OPS_EPILOGUE }
